@@ -21,6 +21,7 @@ type Case struct {
 	Data   []byte
 	FI     *FI
 	Budget uint64 // heap budget handed to the child watchdog (0 = none)
+	Cost   int64  // estimated decode cost in ms (valid-decode time of the seed on its home entry point)
 	Seed   string // name of the seed stream it derives from
 	Mut    string // mutator class
 	Fam    string // family of the seed stream
